@@ -1139,7 +1139,17 @@ where
     {
         self.base.verif_snapshot(clock)
     }
+}
 
+// Phase-split hooks (additionally guarded by `--cfg mini_moka_verif_phase`, so that the rest of
+// the hooks still builds when a change to the private API they call breaks them).
+#[cfg(all(mini_moka_verif, mini_moka_verif_phase))]
+impl<K, V, S> Cache<K, V, S>
+where
+    K: Hash + Eq + Send + Sync + 'static,
+    V: Clone + Send + Sync + 'static,
+    S: BuildHasher + Clone + Send + Sync + 'static,
+{
     // Phase-split API: the three phases of a call (map step, maintenance, enqueue) as
     // separate calls, so that interleavings of several logical threads can be replayed
     // deterministically on the real code.
